@@ -75,6 +75,16 @@ def programs():
     add("TV_assign", ("T", "fnarr"), "e.v_fnarr = e.t_fnarr;", "accept", "array of tainted function pointers of the matching type")
     add("TV_assign", ("T", "fn2arr"), "e.v_fnarr = e.t_fn2arr;", "reject", "array of function pointers of another function type")
     add("TV_assign", ("T", "pchararr"), "e.v_parr = e.t_pchararr;", "reject", "tainted_volatile<int*[2]> = tainted<char*[2]>")
+    # the same when the value comes from another cell of sandbox memory
+    add("TV_assign", ("TV", "fn2"), "e.v_fn = e.v_fn2;", "reject", "tainted_volatile function pointer of another function type")
+    add("TV_assign", ("TV", "pcchar"), "e.v_pint = e.v_pcchar;", "reject", "tainted_volatile<int*> = tainted_volatile<const char*>")
+    add("TV_assign", ("TV", "fn>bool"), "e.v_bool = e.v_fn;", "reject", "sandbox function address (in a cell) into a bool cell")
+    add("TV_assign", ("TV", "fn"), "e.v_fn = e.v_fn;", "accept", "matching function-pointer cells")
+    # number + raw application pointer must not yield a tainted pointer
+    add("T_plus_raw", ("Plain", "pint"), "auto x = e.t_int + e.p_pint; (void)x;", "reject", "tainted<int> + raw application pointer")
+    add("T_plus_raw", ("Plain", "parr"), "auto x = e.t_int + e.p_arr; (void)x;", "reject", "tainted<int> + raw array")
+    add("TV_plus_raw", ("Plain", "pint"), "auto x = e.v_int + e.p_pint; (void)x;", "reject", "tainted_volatile<int> + raw application pointer")
+    add("T_minus_raw", ("Plain", "pint"), "auto x = e.t_int - e.p_pint; (void)x;", "reject")
     # foreign-sandbox wrappers
     add("T_assign", ("Foreign", "int"), "e.t_int = e.x_int;", "reject")
     add("TV_assign", ("Foreign", "int"), "e.v_int = e.x_int;", "reject")
